@@ -16,6 +16,14 @@ import lib
 
 def run_seq_py(P, limit, ops):
     """Executes ops on a fresh real ParseCache; returns list of observation strings."""
+    # constructions that FAIL (a negative limit): the exception objects are kept, and with them - through the traceback - the
+    # half-constructed cache objects.  They are no caches; clearing must still reach every real one.
+    zombies = []
+    for bad in (-1, -7):
+        try:
+            P.ParseCache(bad)
+        except Exception as e:  # noqa
+            zombies.append(e)
     c = P.ParseCache(limit)
     c2 = P.ParseCache(2)
     c2[("z", 9)] = 99
@@ -69,6 +77,8 @@ def run_seq_py(P, limit, ops):
         if kind == "clear" and any(len(cx) != 0 or cx.hits != 0 or cx.misses != 0 for cx in copies):
             st += " COPIED-CACHE-NOT-CLEARED"
         obs.append(st)
+    for e in zombies:
+        e.__traceback__ = None     # lets go of the half-constructed objects
     return obs
 
 
@@ -112,8 +122,11 @@ def run_parse_py(P, limit, ops):
             except Exception as e:  # noqa
                 out = "exc:" + type(e).__name__
         elif op[0] == "clear":
-            P.ParseCache.clear_caches()
-            out = "done"
+            try:
+                P.ParseCache.clear_caches()
+                out = "done"
+            except Exception as e:  # noqa
+                out = "exc:" + type(e).__name__
         else:
             P.ParseCache.invalidate()
             out = "done"
